@@ -480,6 +480,9 @@ OpProcessEvent(mr, mw, ro, op) ==
      ELSE IF dupMay # {} THEN {ok, Out(mw, ro, Resp("error"))}
      ELSE {ok}
 
+\* an ill-formed service request: an error response, nothing changes
+OpBadRequest(mr, mw, ro, op) == {Out(mw, ro, Resp("error"))}
+
 OpSetReadOnly(mr, mw, ro, op) == {Out(mw, [ro EXCEPT ![op.loc] = op.flag], R0)}
 
 \* a new Location object over the same storage: the write-through store holds
@@ -503,6 +506,7 @@ StepR(mr, mw, ro, op) ==
     [] op.op = "SearchRules"  -> OpSearchRules(mr, mw, ro, op)
     [] op.op = "ProcessEvent" -> OpProcessEvent(mr, mw, ro, op)
     [] op.op = "SetReadOnly"  -> OpSetReadOnly(mr, mw, ro, op)
+    [] op.op = "BadRequest"   -> OpBadRequest(mr, mw, ro, op)
     [] op.op = "Reload"       -> OpReload(mr, mw, ro, op)
 
 \* All outcomes of op when the lazy purges G (location -> expired ids) happen
